@@ -72,7 +72,8 @@ REQUIRED_TAGS = ['op=insert', 'op=refine', 'op=raise', 'op=lower', 'op=reverse',
                  'ctor=valid-open', 'ctor=valid-periodic', 'ctor=decreasing', 'ctor=too-few', 'ctor=order<=0',
                  'ctor=periodic-mismatch', 'ctor=within-tol', 'ctor=beyond-tol', 'ctor=gap', 'ctor=short-periodic', 'ctor=wide-periodic', 'ctor=tol-inversion',
                  'ctor-eval=in-process', 'wf=true',
-                 'stream=small-periodic', 'small-periodic:n<p+k', 'small-periodic:n+1<=p+k',
+                 'stream=small-periodic', 'small-periodic:n<p+k', 'small-periodic:n+1<=p+k', 'small-periodic-op=insert',
+                 'small-periodic-op=split', 'small-periodic-op=lowerper', 'small-periodic-op=reverse', 'flag=periodic-small-basis-geometry',
                  'insert=periodic', 'insert=open', 'split=periodic', 'split=open', 'raise=open', 'raise=periodic', 'raise:pardim=1',
                  'raise:pardim=2', 'lower=open', 'append=equal-orders', 'append=unequal-orders', 'identical=unequal-orders',
                  'acc=compared', 'acc=getitem-IndexError', 'acc=flat-index-F-order', 'acc=flat-index-curve',
@@ -678,7 +679,7 @@ def _knot_refs(rng, b, count, allow_end=False, new_only=False):
         if nk >= 2 and fine and (new_only or rng.random() < 0.6):
             refs.append(['m', rng.randrange(nk - 1), rng.choice([0.5, 0.25, 0.75, 0.125, 0.375, 0.625])])
         else:
-            hi = nk if (allow_end and b.periodic < 0) else max(nk - 1, 1)
+            hi = nk if (allow_end or (b.periodic >= 0 and rng.random() < 0.3)) else max(nk - 1, 1)
             j = rng.randrange(hi)
             if _mult(b, float(ks[j])) + sum(1 for r in refs if r == ['k', j]) >= b.order - 1 and rng.random() < 0.9:
                 # one more copy would make the knot C^-1 (or worse): legal, but it poisons raise/lower_order
@@ -771,7 +772,7 @@ def _gen_instr(rng, sp, pool, max_pool, defect=False):
                      + ['affine'] * 6 + ['section'] * 2 + ['extrude'] + ['clone'] + ['identical'] * 2)
     ncomp = o.dimension + (1 if o.rational else 0)
     if fam == 'insert':
-        if small[d] or ncp > 300 or o.shape[d] > 48:
+        if ncp > 300 or o.shape[d] > 48:
             return None
         cnt = rng.choice([1, 1, 1, 2, 3])
         refs = _knot_refs(rng, b, cnt, allow_end=False)
@@ -783,7 +784,7 @@ def _gen_instr(rng, sp, pool, max_pool, defect=False):
             ins['refs'] = [['d', rng.choice([1.25, -0.5, 2.375, -1.75])]]
         return ins
     if fam == 'refine':
-        if any(small) or ncp * (2 ** pd) > 300 or max(o.shape) > 40 or any(_min_span(x) < 2.0 ** -10 for x in o.bases):
+        if ncp * (2 ** pd) > 300 or max(o.shape) > 40 or any(_min_span(x) < 2.0 ** -10 for x in o.bases):
             return None
         if rng.random() < 0.5:
             return {'op': 'refine', 'i': i, 'ns': [rng.choice([1, 1, 2])], 'dir': d}
@@ -823,7 +824,7 @@ def _gen_instr(rng, sp, pool, max_pool, defect=False):
             return {'op': 'reparam', 'i': i, 'dir': d, 's': s0, 'e': e0}
         return {'op': 'reparamall', 'i': i, 'args': [interval() for _ in range(rng.randint(0, pd))]}
     if fam == 'split':
-        if not roomy or small[d] or ncp > 300:
+        if not roomy or ncp > 300:
             return None
         cnt = rng.choice([1, 1, 2, 3])
         if per[d] >= 0 and not all(float(x * 2.0 ** 20).is_integer() for x in b.knots):
@@ -858,7 +859,7 @@ def _gen_instr(rng, sp, pool, max_pool, defect=False):
         c = rng.choice([None, 0, 0, rng.randint(0, orders[d] - 2)])
         return {'op': 'makeper', 'i': i, 'c': c, 'dir': d}
     if fam == 'lowerper':
-        dd = next((x for x in range(pd) if per[x] >= 0 and not small[x]), None)
+        dd = next((x for x in range(pd) if per[x] >= 0), None)
         if dd is None:
             return None
         return {'op': 'lowerper', 'i': i, 't': rng.randint(-1, per[dd] - 1) if per[dd] > 0 or rng.random() < 0.8 else per[dd], 'dir': dd}
@@ -886,7 +887,7 @@ def _gen_instr(rng, sp, pool, max_pool, defect=False):
         return {'op': 'clone', 'i': i} if roomy else None
     if fam == 'identical':
         def quiet(x):
-            return (all(bb.order >= 2 and not _overfull(bb) and not _small_periodic(bb) for bb in x.bases)
+            return (all(bb.order >= 2 and not _overfull(bb) for bb in x.bases)
                     and max(x.shape) <= 10 and len(x) <= 60)
         cands = [j for j, c in enumerate(pool) if j != i and c.pardim == pd and quiet(c)]
         if not cands or not quiet(o):
@@ -910,7 +911,7 @@ def _start_object(rng, small_ok=False):
 
 
 def _gen_history(rng, sp, nops, max_pool=7):
-    pool_specs = [_start_object(rng, small_ok=rng.random() < 0.04)]
+    pool_specs = [_start_object(rng, small_ok=rng.random() < 0.35)]
     if rng.random() < 0.45:
         extra = _start_object(rng)
         if pool_specs[0]['bases'].__len__() == 1 and rng.random() < 0.7:
@@ -1074,6 +1075,12 @@ def _ctor_cases(rng, n):
             continue
         if k >= 0 and any(abs((kn2[i + 1] - kn2[i]) - (kn2[-p - k + i] - kn2[-p - k - 1 + i])) > 0.5 * TOL for i in range(p + k - 1)):
             continue     # keep the periodic comparison away from its own threshold
+        if k >= 0 and abs(kn2[j] - kn[j]) > 0.95 * TOL:
+            continue     # on a periodic vector only a round-off sized move keeps the ghost knots periodic (else: class gap)
+        cm = list(np.maximum.accumulate(np.array(kn2)))
+        if not cm[p - 1] < cm[m - p]:
+            continue     # the stored running maximum would have an empty domain (start >= end is never tested by the
+                         # constructor: that is the gap class, not a tolerance inversion)
         add('tol-inversion', p, kn2, k, 'accept')
         a, e = kn[p - 1], kn[m - p]
         ts = sorted({kn2[j - 1], kn2[j], kn[min(j + 1, m - 1)], a, e, 0.5 * (a + e), 0.5 * (kn2[j - 1] + kn[min(j + 1, m - 1)])})
@@ -1165,9 +1172,24 @@ def _small_periodic_cases(rng, tier):
                         else:
                             d = 0
                             o = {'bases': [b], 'cps': gen.rand_cps(rng, [n], 2 + rational, rational), 'rational': rational}
-                        ops = [{'op': 'insert', 'i': 0, 'dir': d, 'refs': [ref]}]
-                        if rng.random() < 0.3:
-                            ops.append({'op': 'insert', 'i': 0, 'dir': d, 'refs': [['m', rng.randrange(n_int + 2), 0.5]]})
+                        r = rng.random()
+                        if r < 0.55:
+                            ops = [{'op': 'insert', 'i': 0, 'dir': d, 'refs': [ref]}]
+                            if rng.random() < 0.3:
+                                ops.append({'op': 'insert', 'i': 0, 'dir': d, 'refs': [['m', rng.randrange(n_int + 2), 0.5]]})
+                        elif r < 0.75:
+                            refs = [ref] if rng.random() < 0.6 or ref[0] == 'k' else \
+                                [ref, ['m', ref[1], 0.75]]
+                            ops = [{'op': 'split', 'i': 0, 'dir': d, 'refs': refs}]
+                            if rng.random() < 0.4:
+                                ops.append({'op': 'insert', 'i': 1, 'dir': d, 'refs': [['m', 0, 0.5]]})
+                        elif r < 0.9:
+                            ops = [{'op': 'lowerper', 'i': 0, 't': rng.randint(-1, k), 'dir': d}]
+                            if rng.random() < 0.5:
+                                ops.append({'op': 'insert', 'i': 0, 'dir': d, 'refs': [ref]})
+                        else:
+                            ops = [{'op': 'reverse', 'i': 0, 'dir': d}, {'op': 'insert', 'i': 0, 'dir': d, 'refs': [ref]},
+                                   {'op': 'refine', 'i': 0, 'ns': [1], 'dir': d}]
                         out.append({'kind': 'hist', 'pool': [o], 'ops': ops, 'stream': 'small-periodic'})
     return out
 
@@ -1511,7 +1533,7 @@ def _ctor_oracle(sp, s):
                 return pre + ['evaluate on the accepted basis raised %s' % exc_kind(e)]
             a, e_ = st[p - 1], st[len(st) - p]
             for t, row in zip(s['eval'], ev['rows']):
-                if a <= t <= e_ and (abs(sum(row) - 1.0) > 1e-9 or min(row) < -1e-12):
+                if a < e_ and a <= t <= e_ and (abs(sum(row) - 1.0) > 1e-9 or min(row) < -1e-12):
                     pre.append('evaluate(%r) on the accepted basis (knots %r): row %r is not a partition of unity' % (t, st, row))
                     break
     except ValueError:
@@ -1684,6 +1706,8 @@ def tags(s, res):
         info = gen.basis_info(b)
         t.add('small-periodic:n%sp+k' % ('<' if info['n'] < info['p'] + info['k'] else '>='))
         t.add('small-periodic:n+1%sp+k' % ('<=' if info['n'] + 1 <= info['p'] + info['k'] else '>'))
+        if info['n'] < info['p'] + info['k'] and isinstance(iv, dict) and iv['steps'] and 'err' not in iv['steps'][0]:
+            t.add('small-periodic-op=' + s['ops'][0]['op'])
     if n >= 30:
         t.add('len>=30')
     if isinstance(iv, dict):
